@@ -230,6 +230,30 @@ def reader_slots(repo: Repo, ci: ClassInfo, fn: ast.FunctionDef, helper: ClassIn
 
 
 # ------------------------------------------------------------------ list / bytes length intervals
+def length_witness(le: "LenEval", e: ast.expr) -> Optional[Tuple[str, int, int, int, int]]:
+    """When the length of `e` was derived as a proper interval: two concrete lengths of one free list (0 and 40 elements) for which
+    `e` has two different exact lengths — (free list, n1, len1, n2, len2) — i.e. proof that the field's width really varies.
+    None when no such pair is found (the interval may just be imprecise)."""
+    free = sorted(le.free)
+    for name in free:
+        got = []
+        for n in (0, 40):
+            le.assume = {name: n}
+            try:
+                iv = le.of(e)
+            except Unknown:
+                iv = None
+            finally:
+                le.assume = {}
+            if iv is None or iv[0] != iv[1]:
+                got = []
+                break
+            got.append((n, iv[0]))
+        if len(got) == 2 and got[0][1] != got[1][1]:
+            return (name, got[0][0], got[0][1], got[1][0], got[1][1])
+    return None
+
+
 class LenEval:
     """Length intervals of list/bytes-valued expressions, following property getters on known receivers."""
 
@@ -238,6 +262,8 @@ class LenEval:
         self.ci = ci
         self.receivers = receivers         # text of receiver expression -> its class
         self.depth = 0
+        self.assume: Dict[str, int] = {}   # text of a list-valued expression -> the length it is taken to have (witness search)
+        self.free: set = set()             # list-valued expressions whose length was taken as "any" ([0, INF))
 
     def of(self, e: ast.expr, ci: Optional[ClassInfo] = None, env: Optional[Dict[str, Interval]] = None) -> Interval:
         ci = ci or self.ci
@@ -301,10 +327,13 @@ class LenEval:
             return (len(e.elts), len(e.elts))
         if isinstance(e, (ast.ListComp, ast.GeneratorExp)) and len(e.generators) == 1:
             g = e.generators[0]
+            if norm(g.iter) in self.assume and not g.ifs:
+                return (self.assume[norm(g.iter)], self.assume[norm(g.iter)])
             try:
                 lo, hi = self.of(g.iter, ci, env)
             except Unknown:
                 lo, hi = 0, INF           # a list of unknown length
+                self.free.add(norm(g.iter))
             return (0 if g.ifs else lo, hi)
         if isinstance(e, ast.Call):
             f = norm(e.func)
